@@ -230,6 +230,8 @@ def gen_synth_case(rng, consts, pool):
     r = rng.random()
     if r < 0.06:
         kind += "0"                                                            # descriptor 0 closed during the call
+    elif r > 0.95:
+        kind += "E"                                                            # the caller's errno is ERANGE (stale) when the call is made
     elif r < 0.11 and b";" not in arg and len(arg) < 1500 and len(items) >= 2:
         h = rng.randrange(1, len(items))                                        # two chain elements: exclude_spawns_of:<a>;exclude_spawns_of:<b>
         kind, argf, via_chain = "cfilter2", hexs(b",".join(items[:h])) + "+" + hexs(b",".join(items[h:])), True
@@ -273,7 +275,7 @@ def spec_line(cf, rf):
         return "\t".join(["specm", cf[1], cf[3], cf[5], rf[1]])
     if rf[1] not in ("drop", "pass"):
         return None
-    if cf[0] in ("filter", "cfilter", "filter0", "cfilter0"):
+    if cf[0] in ("filter", "cfilter", "filter0", "cfilter0", "filterE", "cfilterE"):
         return "\t".join(["spec", cf[1], cf[3], cf[5], rf[1]])
     if cf[0] == "cfilter2":                               # the names listed by two chain elements are the names of "a,b"
         a1, a2 = cf[1].split("+")
@@ -346,6 +348,8 @@ def gen_hist_case(rng, consts, pool, k, cid):
     listed = b",".join([b"zz", b"", a, b"qq", a])
     if kind in (0, 2, 4):
         steps += ["n:" + hexs(a), "c:" + hexs(listed), "f"]
+        if k % 3 == 0:
+            steps += ["e"]                                  # errno of the caller left at ERANGE by something earlier
         if k % 2:
             steps += ["z"]                                  # the child runs without descriptor 0 (daemons, closed stdin)
         if kind == 2:
